@@ -113,6 +113,11 @@ class Space:
                     yield {'ent': ename, 'site': 'value', 'attr': 0, 'detail': x, 'text': self.file([smodel.inst_text(10, E, [x, y])]), 'two': y}
         # structural sites
         yield {'ent': ename, 'site': 'order', 'detail': 'forward-refs', 'text': self.file([smodel.inst_text(10, E, base)], order='before')}
+        if ename.startswith(('e_', 'o_')):
+            # the session object has read another file before (ReadExchangeFile starts from an empty session): other ids, more instances
+            ren = lambda txt: re.sub(r'#(\d+)', lambda mm: '#%d' % (int(mm.group(1)) * 100 + 7), txt)
+            prior = smodel.file_text(self.s.name, [ren(x) for x in self.support + [smodel.inst_text(10, E, base), smodel.inst_text(11, E, base)]], None)
+            yield {'ent': ename, 'site': 'session-reuse', 'detail': 'second-read', 'text': self.file([smodel.inst_text(10, E, base)]), 'prior': prior}
         if not ename.startswith('p_') or full:
             for ids in IDSETS[1:]:
                 m = dict(zip(IDSETS[0], ids))
@@ -351,9 +356,9 @@ def main():
         cases = []
         for en, cs in allcases.items():
             for c in (cs[:1] if en in bad else cs):
-                if c['text'] in seen_texts:
+                if (c['text'], c.get('prior')) in seen_texts:
                     continue
-                seen_texts.add(c['text'])
+                seen_texts.add((c['text'], c.get('prior')))
                 cases.append(c)
         chk.extra.setdefault('entities_with_failing_default', {})[fam.name] = sorted(bad)
         for c in sp.header_cases():
